@@ -456,6 +456,29 @@ func init() {
 	_ = inner
 	baseRun, baseReplay := ps.Run, ps.Replay
 	twin := func(res *RunResult, agg *Stats) *RunResult {
+		if res.Violation == nil && res.Cut != nil && res.Trace != nil && res.Cut.Step >= 0 && res.Cut.Step < len(res.Trace.Steps) {
+			// The run met a divergence that is not one of C18's own verdicts.  If the same history passes that
+			// point once its rejected requests are left out, the divergence is the trace a rejected request
+			// left behind (in memory only: the write set and the would-be registers looked untouched).
+			cutTr := *res.Trace
+			cutTr.Steps = res.Trace.Steps[:res.Cut.Step+1]
+			_, rejected, v1 := execRejectTwin(&cutTr, nil)
+			if v1 != nil && len(rejected) > 0 {
+				skip := map[int]bool{}
+				for _, i := range rejected {
+					skip[i] = true
+				}
+				if !skip[res.Cut.Step] {
+					if _, _, v2 := execRejectTwin(&cutTr, skip); v2 == nil {
+						res.Violation = &Violation{Class: "reject.diff", Step: res.Cut.Step, Msg: fmt.Sprintf("the history fails at step %d ([%s] %s) but passes once its %d rejected request(s) are left out", res.Cut.Step, res.Cut.Class, res.Cut.Msg, len(skip))}
+						res.Cut = nil
+						agg.Inc("reject.twin-outcome-differs")
+						return res
+					}
+				}
+			}
+			return res
+		}
 		if res.Violation != nil || res.Cut != nil || res.Trace == nil {
 			return res
 		}
@@ -510,11 +533,11 @@ func execRejectTwin(tr *Trace, skip map[int]bool) (map[RegID][]byte, []int, *Vio
 			rejected = append(rejected, i)
 		}
 		if v := w.execGuarded(&st); v != nil {
-			return nil, nil, v
+			return nil, rejected, v
 		}
 	}
 	if v := w.execGuarded(&Step{Op: "commit", Flavour: "fc", Workers: 1}); v != nil {
-		return nil, nil, v
+		return nil, rejected, v
 	}
 	return w.Ledger.Regs, rejected, nil
 }
